@@ -75,12 +75,18 @@ let field name v =
   | List (Atom n :: xs) when n = name -> List xs
   | v -> raise (Shape ("field " ^ name ^ ": " ^ to_string v))
 
+(* list-valued field: always the list of elements, also when there is exactly one *)
+let lfield name v =
+  match v with
+  | List (Atom n :: xs) when n = name -> xs
+  | v -> raise (Shape ("field " ^ name ^ ": " ^ to_string v))
+
 let tables_of (v : t) : Dfa.tables =
   match v with
   | List [Atom "tables"; lits; mlit; mcmd; mcompadd; mstar; maxlevel; clit; ccmd; ccompadd; _hash] ->
       { Dfa.t_literals = List.map (fun l -> match l with
             | List [i; t; d] -> ((n_ i, cl (string_ t)), cl (string_ d))
-            | _ -> raise (Shape "literal")) (list_ (field "literals" lits));
+            | _ -> raise (Shape "literal")) (lfield "literals" lits);
         t_mlit = nested_of (field "mlit" mlit);
         t_mcmd = opt_of nested_of (field "mcmd" mcmd);
         t_mcompadd = opt_of nested_of (field "mcompadd" mcompadd);
@@ -106,12 +112,12 @@ let of_tables (t : Dfa.tables) : t =
 let alltables_of (v : t) : Dfa.alltables =
   match v with
   | List [Atom "alltables"; _needs; cmds; states; main; subtrans; csub; subwords] ->
-      { Dfa.a_commands = List.map (fun c -> cl (string_ c)) (list_ (field "commands" cmds));
-        a_states = List.map n_ (list_ (field "states" states));
+      { Dfa.a_commands = List.map (fun c -> cl (string_ c)) (lfield "commands" cmds);
+        a_states = List.map n_ (lfield "states" states);
         a_main = tables_of (field "main" main);
-        a_subtrans = List.map row_of (list_ (field "subtrans" subtrans));
+        a_subtrans = List.map row_of (lfield "subtrans" subtrans);
         a_csub = levels_of (field "csub" csub);
         a_subwords = List.map (fun s -> match s with
             | List [pi; id; t] -> ((n_ pi, n_ id), tables_of t)
-            | _ -> raise (Shape "subword tables")) (list_ (field "subwords" subwords)) }
+            | _ -> raise (Shape "subword tables")) (lfield "subwords" subwords) }
   | v -> raise (Shape ("alltables: " ^ to_string v))
